@@ -95,7 +95,101 @@ func newC05(tier string) run.Job {
 }
 
 // units: every path in plain mode, then the ladder paths again in accessor mode
-func (j *c05Job) NumUnits() int { return len(j.paths) + j.nLadder + len(j.deep) }
+func (j *c05Job) NumUnits() int { return len(j.paths) + j.nLadder + len(j.deep) + len(c05SelfPaths) }
+
+// c05SelfPaths: paths whose user function "self" calls the SAME parsed function again on another
+// document while the outer call is still running (re-entrancy: the sequential form of sharing a
+// parsed function between goroutines).
+var c05SelfPaths = []string{
+	`$[-2:].self()`, `$[::-1].self()`, `$.*.self()`, `$..a.self()`, `$[?(@.a)].self()`, `$[0,1].self()`, `$[?(@.self() == 1)]`,
+	`$['a','b'].self()`, `$..[?(@.a)].self()`, `$[*,*].self()`, `$[1:].self()`, `$[?(@.a.self() > 0 && @.b)]`, `$..*.self()`,
+}
+
+// runSelf explores one re-entrant path: for every ordered pair of documents (outer, inner) out
+// of the first four the path succeeds on (small documents first, then the big ones) and for the
+// re-entry at the 1st, 2nd or 3rd invocation of self, the outer result and the inner result must
+// equal what the path returns on that document with a function that does not re-enter.
+func (j *c05Job) runSelf(k int, c *run.Ctx) {
+	pathText := c05SelfPaths[k]
+	identity := func(v interface{}) (interface{}, error) { return v, nil }
+	var ref jsonpath.Config
+	ref.SetFilterFunction("self", identity)
+	var docs []int
+	for di := 0; di < len(j.docs); di++ {
+		rf, err := jsonpath.Parse(pathText, ref)
+		if err != nil {
+			c.Add("paths_rejected", 1)
+			return
+		}
+		if res := impl.Call(rf, gen.Clone(j.docs[di])); res.ErrType == "" && res.Panic == "" && len(res.Values) >= 2 {
+			docs = append(docs, di)
+			if len(docs) == 3 {
+				di = j.nSmall - 1 // continue with the big documents
+				if len(j.big) > 0 && j.big[0] > di {
+					di = j.big[0] - 1
+				}
+			}
+		}
+		if len(docs) == 5 {
+			break
+		}
+	}
+	want := map[int]string{}
+	for _, di := range docs {
+		rf, _ := jsonpath.Parse(pathText, ref)
+		want[di] = outcomeString(impl.Call(rf, gen.Clone(j.docs[di])))
+	}
+	for _, outer := range docs {
+		for _, inner := range docs {
+			for at := 0; at < 3; at++ {
+				c.Tick()
+				var f func(interface{}) ([]interface{}, error)
+				calls, depth := 0, 0
+				innerGot := ""
+				innerDoc := gen.Clone(j.docs[inner])
+				var cfg jsonpath.Config
+				cfg.SetFilterFunction("self", func(v interface{}) (interface{}, error) {
+					if depth == 0 {
+						if calls == at {
+							depth++
+							innerGot = outcomeString(impl.Call(f, innerDoc))
+							depth--
+						}
+						calls++
+					}
+					return v, nil
+				})
+				var err error
+				f, err = jsonpath.Parse(pathText, cfg)
+				if err != nil {
+					return
+				}
+				got := outcomeString(impl.Call(f, gen.Clone(j.docs[outer])))
+				c.Evals++
+				c.States++
+				c.Traces++
+				c.Nontrivial++
+				detail := ""
+				switch {
+				case got != want[outer]:
+					detail = fmt.Sprintf("the outer call on %s returned %s; without re-entry it returns %s", j.text[outer], got, want[outer])
+				case innerGot != "" && innerGot != want[inner]:
+					detail = fmt.Sprintf("the inner call on %s returned %s; alone it returns %s", j.text[inner], innerGot, want[inner])
+				}
+				if detail != "" {
+					c.Violate(run.Violation{
+						Sig:    "reentrant:" + pathText,
+						Detail: fmt.Sprintf("%s, self re-enters the same parsed function on %s at its invocation #%d during the call on %s: %s", pathText, j.text[inner], at, j.text[outer], detail),
+						Size:   len(j.text[outer]) + len(j.text[inner]),
+						Case:   map[string]interface{}{"self": k, "path": pathText, "outer": outer, "inner": inner, "at": at},
+					})
+					return
+				}
+			}
+		}
+	}
+	c.Outcome(fmt.Sprintf("self-docs=%d", len(docs)))
+}
 
 // unit decodes a unit number: path index, accessor mode, long-history unit
 func (j *c05Job) unit(i int) (pi int, acc, deep bool) {
@@ -104,11 +198,17 @@ func (j *c05Job) unit(i int) (pi int, acc, deep bool) {
 		return i, false, false
 	case i < len(j.paths)+j.nLadder:
 		return i - len(j.paths), true, false
+	case i >= len(j.paths)+j.nLadder+len(j.deep):
+		return -1, false, false // re-entrant unit
 	}
 	return j.deep[i-len(j.paths)-j.nLadder], false, true
 }
 func (j *c05Job) Describe(i int) map[string]interface{} {
 	k, acc, deep := j.unit(i)
+	if k < 0 {
+		t := c05SelfPaths[i-len(j.paths)-j.nLadder-len(j.deep)]
+		return map[string]interface{}{"unit": i, "path": t, "reentrant": true, "sig": "self:" + t}
+	}
 	t := gen.Render(j.paths[k], nil).Text
 	return map[string]interface{}{"unit": i, "path": t, "accessor": acc, "long_histories": deep, "sig": "path:" + t}
 }
@@ -341,6 +441,10 @@ func (j *c05Job) c05Run(pathText string, acc bool, hist []int, refs map[int]stri
 
 func (j *c05Job) RunUnit(i int, c *run.Ctx) {
 	pi, acc, deep := j.unit(i)
+	if pi < 0 {
+		j.runSelf(i-len(j.paths)-j.nLadder-len(j.deep), c)
+		return
+	}
 	p := j.paths[pi]
 	pathText := gen.Render(p, nil).Text
 	cfg := &j.env.Cfg
@@ -529,6 +633,7 @@ func init() {
 			"pool answers (which recycled buffer a Get returns, or a miss) are owned by the explorer through the instrumented build; option 0 = most recently put",
 			"the per-path document alphabet is chosen by exhaustive scoring over all documents of <=4 nodes: the first success, then documents of the same shape whose outcome differs (they flip the filter atoms), then one per remaining outcome class",
 			"for every path four fixed histories on the big documents (call/call/call, call/edit in place/call, with the pool-cycling retrieval) with default pool answers",
+			"13 re-entrant paths: the user function calls the same parsed function again on another document during the outer call (every ordered pair out of <=5 documents, re-entry at the 1st..3rd invocation); both results must equal the non-re-entrant ones",
 			"histories longer than the bound are not explored; state hidden inside the parsed tree is observed only through call results",
 		},
 		Bounds: map[string]string{
@@ -539,6 +644,16 @@ func init() {
 		Replay: func(cs map[string]interface{}) (bool, string) {
 			sched.Install()
 			j := newC05("quick").(*c05Job)
+			if _, isSelf := cs["self"]; isSelf {
+				var k int
+				fmt.Sscan(fmt.Sprint(cs["self"]), &k)
+				ctx := run.NewReplayCtx()
+				j.runSelf(k, ctx)
+				if vs := ctx.Violations; len(vs) > 0 {
+					return true, vs[0].Detail
+				}
+				return false, "no violation"
+			}
 			pathText, _ := cs["path"].(string)
 			var hist []int
 			if l, ok := cs["history"].([]interface{}); ok {
